@@ -39,6 +39,10 @@ type File struct {
 	Chunk int
 	// EOFWithData: the final bytes are returned together with io.EOF.
 	EOFWithData bool
+	// ZeroReads: a Read occasionally (never twice in a row) returns (0, nil),
+	// which io.Reader permits and callers must treat as "nothing happened".
+	ZeroReads bool
+	lastZero  bool
 	// MaxDelay is the maximum number of extra scheduling rounds per call.
 	MaxDelay int
 
@@ -170,6 +174,14 @@ func (f *File) Read(p []byte) (n int, err error) {
 			return 0, ErrInjected
 		}
 		return 0, io.EOF
+	}
+	if f.ZeroReads && ft == nil {
+		if !f.lastZero && f.X.Tape.Draw("disk", 6) == 0 {
+			f.lastZero = true
+			f.X.Fault("read-zero-nil")
+			return 0, nil
+		}
+		f.lastZero = false
 	}
 	want := int64(len(p))
 	if want > remain {
